@@ -445,7 +445,7 @@ static void run_cfg(const char *prop_unused)
   vk_cfg.vlimit = 24;
   vk_cfg.hello_lite = 1;
   vk_autonomous_gap_ms = 600;
-  if (C.timejump) { vk_cfg.time_on = 1; vk_cfg.time_bound = 1; vk_cfg.time_jump = 5; } /* 20 nominal ms at the free runs' time scale: later than the 5 + 3 x 2 ms the finite waits can add up to */
+  if (C.timejump) { vk_cfg.time_on = 1; vk_cfg.time_bound = 1; vk_cfg.time_jump = 7; } /* (not 5: deadline 3 minus 5 is -2, the one negative value the library maps to "do not wait") */ /* 20 nominal ms at the free runs' time scale: later than the 5 + 3 x 2 ms the finite waits can add up to */
   if (C.faults) {
     vk_cfg.faults_on = 1;
     vk_cfg.fault_bound = 1;
